@@ -50,6 +50,9 @@ FAMILIES = [
 ]
 
 
+FAMILY_FIELDS = {'F-byte': ['F-high-bits', 'PC', 'mem'], 'prefixed-return-length': ['len', 'PC'], 'JP-indirect': ['PC'], 'regpair-arith': ['BA', 'I', 'X', 'Y', 'U', 'S', 'FC', 'FZ'], 'ADC-SBC-carry': ['FC'], 'ADCL-SBCL': ['FC', 'FZ', 'mem'], 'MVL-ext': ['I', 'X', 'Y', 'U', 'S', 'mem'], 'EX-prefixed': ['I', 'mem'], 'BCD': ['FC', 'FZ', 'I', 'mem'], 'MVL-int': ['I', 'X', 'Y', 'U', 'S', 'mem'], 'CMPW-CMPP': ['FC', 'FZ'], 'MV-emem-reg-store': ['X', 'Y', 'U', 'S', 'mem'], 'decimal-shift': ['FZ', 'I', 'mem'], 'RESET-vector': ['PC']}
+
+
 def family(op: str):
     for name, ops, text in FAMILIES:
         if op in ops:
@@ -81,16 +84,45 @@ def main(argv):
                 examples[w] = c
     entries = []
     plain = sorted(w for w in fields if "@" not in w)
-    for w in plain:
-        op = w.split()[0]
-        fam, text = family(op)
-        fl = sorted(fields[w])
-        pat = "re:(?:(?:" + "|".join(re.escape(x) for x in fl) + ")(?:,|$))+"
+
+    def pattern(fl):
+        fl = set(fl)
+        if any(f.startswith("mem[") for f in fl):
+            fl |= {"mem[imem]", "mem[emem]", "mem[mixed]"}
+        fl = sorted(fl)
+        return fl, "re:(?:(?:" + "|".join(re.escape(x) for x in fl) + ")(?:,|$))+"
+
+    done = set()
+    for name, ops, text in FAMILIES:
+        ws = [w for w in plain if w.split()[0] in ops]
+        if not ws:
+            continue
+        done.update(ws)
+        allowed = set()
+        for f in FAMILY_FIELDS[name]:
+            allowed |= {"mem[imem]", "mem[emem]", "mem[mixed]"} if f == "mem" else {f}
+        seen = set().union(*(fields[w] for w in ws))
+        if not seen <= allowed:
+            print(f"NOTE family {name}: observed fields outside the family's own result fields: {sorted(seen - allowed)}")
+        fl, pat = pattern(allowed)
+        ex = next((examples[w] for w in ws if w in examples), None)
         entries.append({
-            "id": f"C06-{op}-{fam}", "property": "C06", "status": "open",
+            "id": f"C06-{name}", "property": "C06", "status": "open",
+            "match": {"where": "re:(?:" + "|".join(sorted(ops)) + ") \\S+", "subcheck": pat},
+            "opcodes": sorted(ops),
+            "summary": f"{text} [opcodes {' '.join(sorted(ops))}; divergence confined to the instruction's own result fields: {','.join(fl)}]",
+            "example": ex,
+        })
+    for w in plain:
+        if w in done:
+            continue
+        op = w.split()[0]
+        fl, pat = pattern(fields[w])
+        entries.append({
+            "id": f"C06-{op}-other", "property": "C06", "status": "open",
             "match": {"where": w, "subcheck": pat},
             "opcodes": [op],
-            "summary": f"{w}: {text}; differing fields seen on the unchanged tree: {','.join(fl)}",
+            "summary": f"{w}: the cores diverge (not triaged into a root-cause family); differing fields: {','.join(fl)}",
             "example": examples.get(w),
         })
     for cls, text in (("@edge", "address wrap-around at the first/last byte of the internal or external space (or an emitted address "
